@@ -9,4 +9,3 @@ CONSTANTS
   EmitSel = "all"
 VIEW View
 INVARIANTS Confluent Emit
-ACTION_CONSTRAINT EmitEdge
